@@ -12,7 +12,7 @@ package main
 // intervals well beyond it and neither closes before it has written everything ("for any write sizes and
 // timing … all of it if neither end closed early").
 //
-//	xnode dl <ms> via <m|p> gap <ms> down <k> <hex>*k up <l> <hex>*l
+//	xnode dl <ms> via <m|p|M|P> gap <ms> down <k> <hex>*k up <l> <hex>*l
 //	  down = writes of the source end (delivered to the target end), up = writes of the target end
 //	obs: tt <hex> ts <hex> teof <b> seof <b>
 //	  tt/ts = bytes the target/source end received, teof/seof = it then saw a clean end of stream
@@ -114,7 +114,19 @@ func runXnode(c xnodeCase) (obs string) {
 	srcApp, srcConn := xTCPPair()
 	defer srcApp.Close()
 	defer srcConn.Close()
-	rig := session.VerifNewListenerRig(root, tunnelID, srcConn)
+	// via M / P: the source end is a transport WITHOUT half-close (WebSocket, KCP, QUIC wrappers): the bridge
+	// sees a plain net.Conn; when the target's direction ends first the rest of the source's data must still
+	// be delivered
+	var srcEnd net.Conn = srcConn
+	if c.via == "M" || c.via == "P" {
+		srcEnd = struct{ net.Conn }{srcConn}
+	}
+	var rig *session.VerifListenerRig
+	if c.via == "M" || c.via == "P" {
+		rig = session.VerifNewListenerRigStream(root, tunnelID, srcEnd) // production shape: forwarder over the StreamProcessor
+	} else {
+		rig = session.VerifNewListenerRig(root, tunnelID, srcEnd)
+	}
 	ln, err := net.ListenTCP("tcp4", &net.TCPAddr{IP: net.IPv4(127, 0, 0, 1)})
 	if err != nil {
 		panic(err)
@@ -134,7 +146,7 @@ func runXnode(c xnodeCase) (obs string) {
 	}()
 	// ---- target node
 	var tgtNode *session.SessionManager
-	if c.via == "m" {
+	if c.via == "m" || c.via == "M" {
 		mgr := session.NewTunnelConnectionManager(func(string) (string, error) { return ln.Addr().String(), nil },
 			session.DefaultTunnelConnectionManagerConfig())
 		defer mgr.Close()
@@ -206,13 +218,13 @@ func execXnode(out *vc.Out, caseStr string, toks []string) {
 // genXnode: traffic that goes on for several multiples of the attach deadline, in both directions, one
 // direction only, few large and many small writes; the cases run concurrently (each has its own two nodes).
 func genXnode(out *vc.Out, r *vc.Rand, thorough bool) {
-	n := 10
+	n := 16
 	if thorough {
 		n = 60
 	}
 	var cases []xnodeCase
 	for i := 0; i < n; i++ {
-		c := xnodeCase{dl: []int{40, 120, 250}[i%3], via: []string{"m", "p"}[i%2]}
+		c := xnodeCase{dl: []int{40, 120, 250}[i%3], via: []string{"m", "p", "M", "P"}[(i/2+i)%4]}
 		c.gap = c.dl / 4
 		writes := 12 + r.Intn(8) // ≥ 3 × dl of traffic
 		size := []int{1, 100, 1000, 4096, 33000}[r.Intn(5)]
